@@ -473,6 +473,28 @@ impl BuddyAllocator {
     }
 }
 
+#[cfg(redb_verif)]
+impl BuddyAllocator {
+    // True if the order-0 page is part of a free block of any order
+    pub(crate) fn verif_is_free(&self, page: u32) -> bool {
+        self.find_free_order(page).is_some()
+    }
+
+    // The free blocks, as (index at that order, order)
+    pub(crate) fn verif_free_blocks(&self) -> Vec<(u32, u8)> {
+        let mut result = vec![];
+        for order in 0..=self.max_order {
+            let bitmap = self.get_order_free(order);
+            for i in 0..bitmap.len() {
+                if !bitmap.get(i) {
+                    result.push((i, order));
+                }
+            }
+        }
+        result
+    }
+}
+
 #[cfg(test)]
 mod test {
     use crate::tree_store::page_store::buddy_allocator::BuddyAllocator;
